@@ -2,6 +2,7 @@
    numbers by parsing the "(* FN name *)" comments below. *)
 From Coq Require Import ZArith List Bool.
 From PyCraft Require Import Base.Res Base.Sx Model.VarInt Model.Versions Model.Position Model.SignedHex Model.Sha1 Model.Tables Model.FieldTypes Model.Nbt Model.Prog Model.CustomPackets Spec.ProtocolTable Model.Frame Model.Aes Model.Cfb8 Model.Rsa Model.Dispatch Model.ExcChain Model.Reactors Model.Negotiate Model.Conc Model.Lifecycle Model.Auth Model.Trackers.
+From PyCraft Require Model.LoopErr.
 Import ListNotations.
 Open Scope Z_scope.
 
@@ -317,6 +318,14 @@ Definition run (fn : Z) (a : sx) : sx :=
       of_result (handle_exception (rel_of (sx_nth a 0)) (sx_hook (sx_nth a 1)) (map sx_handler (sx_list (sx_nth a 2))) (sx_final (sx_nth a 3)) (sx_z (sx_nth a 4)))
   | 80 => (* FN session_run : (secret has_token f107 schedule) ; RSA is reported as the plaintext it carries *)
       of_sess (run_session (fun _ m => m) (sx_zs (sx_nth a 0)) hash_or_nil (sx_bool (sx_nth a 1)) (sx_bool (sx_nth a 2)) (map sx_step (sx_list (sx_nth a 3))))
+  | 82 => (* FN loop_turn : (write_fault_opt:(exn is_ioerror)? reads:((disconnect raises_opt ends_loop)...)) -> (0) continue | (1) interrupted | (2 e) raised *)
+      let w := match sx_list (sx_nth a 0) with [] => None | f :: _ => Some {| LoopErr.wf_exn := sx_z (sx_nth f 0); LoopErr.wf_is_ioerror := sx_bool (sx_nth f 1) |} end in
+      let rds := map (fun r => {| LoopErr.rd_disconnect := sx_bool (sx_nth r 0);
+                                  LoopErr.rd_raises := match sx_list (sx_nth r 1) with [] => None | e :: _ => Some (sx_z e) end;
+                                  LoopErr.rd_ends_loop := sx_bool (sx_nth r 2) |}) (sx_list (sx_nth a 1)) in
+      match LoopErr.turn w rds with
+      | LoopErr.TContinue => L [I 0] | LoopErr.TInterrupted => L [I 1] | LoopErr.TRaised e => L [I 2; I e]
+      end
   | 81 => (* FN outdated_ver : (msg) *)
       of_opt of_zs (outdated_ver (sx_zs (sx_nth a 0)))
   | 90 => (* FN negotiate : (supported names indices allowed_opt initial_opt behaviour) -> () on ValueError | (allowed default conns outcome) *)
